@@ -1712,6 +1712,9 @@ namespace bloch::runtime {
             std::cerr << "[ctor] " << cls->name << " done" << std::endl;
         }
 
+        // 'return this;' in a constructor body leaves the object in the return slot; nobody
+        // reads it (the new-expression already holds the object), so do not let it linger.
+        m_returnValue = {};
         endFrame();
         m_currentClassCtx = prevClass;
         m_inStaticContext = prevStatic;
@@ -1757,7 +1760,10 @@ namespace bloch::runtime {
                     break;
             }
         }
-        Value ret = m_returnValue;
+        // Take the value out of the slot: a copy left behind would keep a returned object
+        // alive (and its destructor pending) until some later call happens to overwrite it.
+        Value ret = std::move(m_returnValue);
+        m_returnValue = {};
         endFrame();
         m_hasReturn = prevReturn;
         m_currentClassCtx = prevClass;
@@ -1783,7 +1789,8 @@ namespace bloch::runtime {
                     break;
             }
         }
-        Value ret = m_returnValue;
+        Value ret = std::move(m_returnValue);
+        m_returnValue = {};
         endFrame();
         m_hasReturn = prevReturn;
         return ret;
